@@ -14,6 +14,25 @@ pub struct Duration { pub secs: u64, pub sub: u32 }
 pub struct TraceInterceptor { pub id: Ghost<int> }
 pub struct TlsAcceptor { pub id: Ghost<int> }
 pub struct Identity { }
+// A-tonic-link-30: ServerTlsConfig::tls_acceptor / ClientTlsConfig::into_tls_connector build the acceptor / connector the
+// configuration describes: under contract in unit tls (S3, S4 / T1-T3); here opaque functions of the configuration
+pub struct BoxError { pub id: Ghost<int> }
+pub struct ServerTlsConfig { pub id: Ghost<int> }
+pub uninterp spec fn acceptor_of(c: ServerTlsConfig) -> Option<TlsAcceptor>;
+impl ServerTlsConfig {
+    #[verifier::external_body]
+    pub fn tls_acceptor(&self) -> (r: Result<TlsAcceptor, BoxError>) ensures r is Ok <==> acceptor_of(*self) is Some, r matches Ok(a) ==> Some(a) == acceptor_of(*self) { unimplemented!() }
+}
+// tonic::transport::Error as far as the builders make it (error.rs: kind + source; not under contract)
+pub mod error { pub enum Kind { Transport, InvalidUri, InvalidUserAgent, InvalidTlsConfigForUds } }
+pub struct Error { pub kind: error::Kind }
+impl Error {
+    pub fn new(kind: error::Kind) -> (r: Error) ensures r.kind == kind { Error { kind } }
+    pub fn from_source(source: BoxError) -> (r: Error) ensures r.kind is Transport { Error { kind: error::Kind::Transport } }
+}
+pub exec const DEFAULT_HTTP2_KEEPALIVE_TIMEOUT: Duration ensures DEFAULT_HTTP2_KEEPALIVE_TIMEOUT.secs == 20 { Duration { secs: 20, sub: 0 } }
+impl<L: Default> Default for ServiceBuilder<L> { fn default() -> (r: Self) { ServiceBuilder { layer: L::default() } } }
+impl Default for Identity { fn default() -> (r: Self) { Identity { } } }
 pub struct Stack<Inner, Outer> { pub inner: Inner, pub outer: Outer }
 // A-tower-05: tower::ServiceBuilder::layer wraps the stack; nothing else is part of the builder
 pub struct ServiceBuilder<L> { pub layer: L }
@@ -66,10 +85,20 @@ def build():
         if val:
             ens.append(Clause('F2_the_setting_is_stored', 'r.%s == %s' % (own, val)))
         u.fn(S, name, within=W, ensures=ens)
+    u.fn(S, 'tls_config', within=W, props=['C15'], display='Server::tls_config',
+         body_edits=[lambda t: t.sub_code('R3', r'\.map_err\(Error::from_source\)', '.map_err(|e| Error::from_source(e))')],
+         closures={0: dict(params='e: BoxError', ret='(x: Error)', ensures=['x.kind is Transport'])},
+         ensures=[Clause('T1_the_server_accepts_with_the_acceptor_the_configuration_describes_every_other_setting_kept',
+                         'r matches Ok(s) ==> s.tls == acceptor_of(tls_config) && s.tls is Some && ' + ' && '.join('s.%s == self.%s' % (f, f) for f in FIELDS if f != 'tls') + ' && s.service_builder == self.service_builder', ['C15']),
+                  Clause('T2_a_configuration_that_yields_no_acceptor_is_an_error_not_a_server_without_tls', 'acceptor_of(tls_config) is None ==> r is Err', ['C15'])])
     u.fn(S, 'layer', within=W, ensures=[
         Clause('L1_layer_carries_every_setting_over_including_the_configured_timeout', frame(None)),
         Clause('L2_the_new_layer_wraps_the_old_stack', 'r.service_builder.layer.inner == new_layer && r.service_builder.layer.outer == self.service_builder.layer')])
     u.close('}')
+    u.fn(S, 'default', within='impl Default for Server<Identity>', header='impl Default for Server<Identity> {', close=True, display='Server::default', vacuity=False,
+         ensures=[Clause('D1_a_fresh_server_has_no_timeout_no_tls_and_no_limits', 'r.timeout is None && r.tls is None && r.concurrency_limit is None && r.max_connection_age is None && !r.accept_http1')])
+    u.fn(S, 'builder', within='impl Server', header='impl Server<Identity> {', close=True, display='Server::builder',
+         ensures=[Clause('D2_the_builder_starts_without_timeout_and_without_tls', 'r.timeout is None && r.tls is None && r.concurrency_limit is None && !r.accept_http1')])
 
     # ---- client side: tonic/src/transport/channel/endpoint.rs, the Endpoint builder (same idea: Endpoint::timeout is the
     # configured timeout that Connection::new hands to GrpcTimeout::new) ----
@@ -79,13 +108,31 @@ def build():
     src = vxlib.read_src(E)
     u.raw('''
 // opaque configuration payloads of Endpoint (moved, never inspected, by its setters)
-pub struct EndpointType { pub id: Ghost<int> }
 pub struct Uri { pub id: Ghost<int> }
+impl Clone for Uri { #[verifier::external_body] fn clone(&self) -> (r: Self) ensures r == *self { unimplemented!() } }
+impl Uri { #[verifier::external_body] pub fn from_static(s: &'static str) -> (r: Uri) { unimplemented!() } }
+pub struct ClientTlsConfig { pub id: Ghost<int> }
+pub uninterp spec fn connector_of(c: ClientTlsConfig, u: Uri) -> Option<TlsConnector>;
+impl ClientTlsConfig {
+    #[verifier::external_body]
+    pub fn into_tls_connector(self, uri: &Uri) -> (r: Result<TlsConnector, BoxError>) ensures r is Ok <==> connector_of(self, *uri) is Some, r matches Ok(c) ==> Some(c) == connector_of(self, *uri) { unimplemented!() }
+}
+impl Clone for TlsConnector { #[verifier::external_body] fn clone(&self) -> (r: Self) ensures r == *self { unimplemented!() } }
+pub mod service {
+    use super::*;
+    // A-tonic-link-31: Connector::new stores the TLS option it is given: under contract in unit tls (Y0)
+    pub struct Connector<C> { pub inner: C, pub tls: Option<TlsConnector> }
+    impl<C> Connector<C> { #[verifier::external_body] pub fn new(inner: C, tls: Option<TlsConnector>) -> (r: Self) ensures r.inner == inner, r.tls == tls { unimplemented!() } }
+}
+impl SharedExec { #[verifier::external_body] pub fn tokio() -> (r: SharedExec) { unimplemented!() } }
+#[verifier::external_body]
+pub fn verif_to_string(s: &str) -> (r: String) ensures r@ == s@ { unimplemented!() }
 pub struct HeaderValue { pub id: Ghost<int> }
 pub struct TlsConnector { pub id: Ghost<int> }
 pub struct SharedExec { pub id: Ghost<int> }
 pub struct IpAddr { pub id: Ghost<int> }
 ''')
+    u.item(E, 'enum', 'EndpointType')
     u.item(E, 'struct', 'Endpoint')
     efields = re.findall(r'^\s+(?:pub(?:\(crate\))?\s+)?(\w+):', src[src.index('pub struct Endpoint {'):src.index('}', src.index('pub struct Endpoint {'))], re.M)
     setters = [(m.group(1), m.group(2)) for m in re.finditer(r'pub fn (\w+)\(self(?:, [^)]*)?\) -> Self \{\s*Endpoint \{\s*(\w+):', src)]
@@ -96,5 +143,18 @@ pub struct IpAddr { pub id: Ghost<int> }
         if name == 'timeout':
             ens.append(Clause('F2_the_configured_timeout_is_stored', 'r.timeout == Some(dur)'))
         u.fn(E, name, within='impl Endpoint', ensures=ens)
+    ekeep = lambda me, own: ' && '.join('%s.%s == self.%s' % (me, f, f) for f in efields if f != own)
+    u.fn(E, 'tls_config', within='impl Endpoint', props=['C15'], display='Endpoint::tls_config',
+         body_edits=[lambda t: t.sub_code('R3', r'\.map_err\(Error::from_source\)', '.map_err(|e| Error::from_source(e))')],
+         closures={0: dict(params='e: BoxError', ret='(x: Error)', ensures=['x.kind is Transport'])},
+         ensures=[Clause('T3_the_endpoint_connects_with_the_connector_the_configuration_describes_for_its_uri_every_other_setting_kept',
+                         'r matches Ok(e) ==> (self.uri matches EndpointType::Uri(u) && e.tls == connector_of(tls_config, u) && e.tls is Some && %s)' % ekeep('e', 'tls'), ['C15']),
+                  Clause('T4_no_connector_or_a_unix_socket_endpoint_is_an_error_not_an_endpoint_without_tls',
+                         '(self.uri is Uds || (self.uri matches EndpointType::Uri(u) && connector_of(tls_config, u) is None)) ==> r is Err', ['C15'])])
+    u.fn(E, 'connector', within='impl Endpoint', props=['C15'], display='Endpoint::connector',
+         ensures=[Clause('T5_the_connector_gets_the_tls_configuration_of_the_endpoint', 'r.tls == self.tls && r.inner == c', ['C15'])])
+    for nm in ('new_uri', 'new_uds'):
+        u.fn(E, nm, within='impl Endpoint', display='Endpoint::' + nm, body_edits=[lambda t: t.sub_code('R17', r'uds_filepath\.to_string\(\)', 'verif_to_string(uds_filepath)')],
+             ensures=[Clause('D3_a_fresh_endpoint_has_no_timeout_and_no_tls', 'r.timeout is None && r.tls is None && r.concurrency_limit is None && r.connect_timeout is None', ['C09', 'C15'])])
     u.close('}')
     return u
